@@ -309,10 +309,11 @@ def m_strlen(I, st, fr, n, this, args, an):
 
 
 def m_ferror(I, st, fr, n, this, args, an):
-    s2 = st.copy()
-    st.note((nloc(n), 'ferror=0'))
-    s2.note((nloc(n), 'ferror!=0'))
-    return [(st, C(0)), (s2, C(1))]
+    # read/write errors exist only where a rule injects them (the chunk-read partition of the pipeline analysis has a
+    # "failing read" class that marks the stream); elsewhere the library calls succeed
+    root = fileroot(args[0]) if args else None
+    err = st.comps.get(('frem', root)) == 'err'
+    return [(st, C(1 if err else 0))]
 
 
 def m_strncpy(I, st, fr, n, this, args, an):
